@@ -115,9 +115,10 @@ func (w *World) registerJSONIntrinsics() {
 // ---- identity-provider HTTP endpoints (decoded-result boundary) ----
 
 type httpEndpoint struct {
-	down   bool
-	status *Term
-	body   *Term
+	truncated bool // 200 headers, then the connection drops before the announced body is complete
+	down      bool
+	status    *Term
+	body      *Term
 }
 
 func (w *World) registerEndpointIntrinsics() {
@@ -130,6 +131,68 @@ func (w *World) registerEndpointIntrinsics() {
 		e.hidden["json:"+payload.String()] = a[1]
 		e.hidden["http:"+u] = &httpEndpoint{status: a[0].(*Term), body: payload}
 		return mkStr(u)
+	}
+	I["@verifHTTPTruncated"] = func(e *Exec, fn *ssa.Function, a []Value) Value {
+		e.freshCtr++
+		u := fmt.Sprintf("http://verif-endpoint-%d.invalid/x", e.freshCtr)
+		payload := mkUF("json_payload", SStr, mkInt(int64(e.freshCtr)))
+		e.hidden["json:"+payload.String()] = a[1]
+		e.hidden["http:"+u] = &httpEndpoint{status: a[0].(*Term), body: payload, truncated: true}
+		return mkStr(u)
+	}
+	// ---- transport boundary, for harnesses that execute (*builder).do itself (real=builder).do) ----
+	I["net/http.NewRequestWithContext"] = func(e *Exec, fn *ssa.Function, a []Value) Value {
+		rt := e.errorsPkgType("net/http", "Request")
+		obj := e.newObject(rt, e.zero(rt), "outgoing request")
+		p := &Pointer{obj: obj}
+		e.store(e.structField(p, "Method"), a[1])
+		e.hidden[fmt.Sprintf("outgoing:%d", obj.id)] = a[2]
+		return tuple(p, nilIface)
+	}
+	I["(*net/http.Client).Do"] = func(e *Exec, fn *ssa.Function, a []Value) Value {
+		rp := a[1].(*Pointer)
+		endpoint, _ := e.hidden[fmt.Sprintf("outgoing:%d", rp.obj.id)].(*Term)
+		es, ok := endpoint.strVal()
+		if !ok {
+			e.unsupported("HTTP request to a symbolic endpoint")
+		}
+		ep, ok := e.hidden["http:"+es].(*httpEndpoint)
+		if !ok {
+			e.unsupported("HTTP request to an endpoint the harness did not define: %s", es)
+		}
+		ht := e.errorsPkgType("net/http", "Response")
+		if ep.down {
+			return tuple(&Pointer{}, e.newError("dial tcp: connection refused"))
+		}
+		hv := e.zero(ht).(*StructVal)
+		hf := make([]Value, len(hv.fields))
+		copy(hf, hv.fields)
+		hst := under(ht).(*types.Struct)
+		bt := e.errorsPkgType("crypto/sha256", "digest")
+		for i := 0; i < hst.NumFields(); i++ {
+			switch hst.Field(i).Name() {
+			case "StatusCode":
+				hf[i] = ep.status
+			case "Body":
+				hf[i] = &IfaceVal{typ: types.NewPointer(bt), val: &OpaqueVal{name: "http.body", data: ep}}
+			}
+		}
+		return tuple(&Pointer{obj: e.newObject(ht, &StructVal{hf}, "response")}, nilIface)
+	}
+	I["io.ReadAll"] = func(e *Exec, fn *ssa.Function, a []Value) Value {
+		iv, _ := a[0].(*IfaceVal)
+		if iv != nil {
+			if ov, ok := iv.val.(*OpaqueVal); ok && ov.name == "http.body" {
+				ep := ov.data.(*httpEndpoint)
+				if ep.truncated {
+					// what arrived before the connection dropped, and the error io.ReadAll reports
+					return tuple(&BytesVal{s: e.fresh("partialbody", SStr)}, e.newError("unexpected EOF"))
+				}
+				return tuple(&BytesVal{s: ep.body}, nilIface)
+			}
+		}
+		e.unsupported("io.ReadAll on an unmodelled reader")
+		return nil
 	}
 	I["@verifHTTPDown"] = func(e *Exec, fn *ssa.Function, a []Value) Value {
 		e.freshCtr++
